@@ -471,9 +471,9 @@ impl Area for H2Wire {
     }
     fn cases(&self, thorough: bool) -> u64 {
         if thorough {
-            120_000
+            400_000
         } else {
-            6_000
+            24_000
         }
     }
     fn corpus(&self) -> Vec<Vec<String>> {
